@@ -342,7 +342,21 @@ struct SanityCounts {
     panics: u64,
     stalls: u64,
     eph_upstream_not_executed: u64,
+    c07_isolation: u64,
+    c07_cause: u64,
     first: Vec<String>,
+}
+
+/// d and everything depending on it (transitively) is Ephemeral
+fn eph_only_closure(w: &World, d: &str) -> bool {
+    let mut todo = vec![d.to_string()];
+    let mut seen: HashSet<String> = HashSet::new();
+    while let Some(x) = todo.pop() {
+        if !seen.insert(x.clone()) { continue; }
+        if w.nodes.iter().find(|n| n.0 == x).unwrap().1 != JobKind::Ephemeral { return false; }
+        for (u, dd) in &w.edges { if *u == x { todo.push(dd.clone()); } }
+    }
+    true
 }
 
 fn sanity_one(rng: &mut Lcg, c: &mut SanityCounts, tag: u64) {
@@ -390,6 +404,7 @@ fn sanity_one(rng: &mut Lcg, c: &mut SanityCounts, tag: u64) {
             let mut problems: Vec<String> = vec![];
             let mut executed_ok: HashSet<String> = HashSet::new();
             let mut running: Vec<String> = vec![];
+            let mut started: HashSet<String> = HashSet::new();
             let mut events = 0u64;
             if let Err(e) = g.event_startup() {
                 problems.push(format!("{:?}", e));
@@ -444,6 +459,7 @@ fn sanity_one(rng: &mut Lcg, c: &mut SanityCounts, tag: u64) {
                         problems.push(format!("{:?}", e));
                         break;
                     }
+                    started.insert(j.clone());
                     running.push(j);
                 } else {
                     let k = r.below(running.len() as u64) as usize;
@@ -465,6 +481,26 @@ fn sanity_one(rng: &mut Lcg, c: &mut SanityCounts, tag: u64) {
                             problems.push(t);
                             break;
                         }
+                    }
+                }
+            }
+            // C07 between driver calls / at the end (only evaluations that were not aborted): a job that was never started and
+            // has a failed or upstream-failed direct upstream is reported upstream-failed (or failed); nobody is upstream-failed
+            // without such an upstream
+            if g.is_finished() && abort_after.is_none() {
+                let failed = g.query_failed();
+                let uf = g.query_upstream_failed();
+                for (u, d) in &w.edges {
+                    if (failed.contains(u) || uf.contains(u)) && !started.contains(d) && !uf.contains(d) && !failed.contains(d) {
+                        // exempt: Ephemeral jobs on which only Ephemeral jobs depend
+                        if !eph_only_closure(&w, d) {
+                            problems.push(format!("C07iso: {} never started, upstream {} failed/upstream-failed, but not reported upstream-failed", d, u));
+                        }
+                    }
+                }
+                for d in uf.iter() {
+                    if !w.edges.iter().any(|(u, dd)| dd == d && (failed.contains(u) || uf.contains(u))) {
+                        problems.push(format!("C07cause: {} upstream-failed without a failed or upstream-failed direct upstream", d));
                     }
                 }
             }
@@ -498,6 +534,10 @@ fn sanity_one(rng: &mut Lcg, c: &mut SanityCounts, tag: u64) {
                         c.stalls += 1;
                     } else if pr.starts_with("C02") {
                         c.eph_upstream_not_executed += 1;
+                    } else if pr.starts_with("C07iso") {
+                        c.c07_isolation += 1;
+                    } else if pr.starts_with("C07cause") {
+                        c.c07_cause += 1;
                     }
                     if c.first.len() < 6 {
                         c.first.push(format!("scenario {} round {}: {}", tag, round, &pr[..pr.len().min(160)]));
@@ -520,8 +560,8 @@ fn sanity(n: u64, seed: u64) {
         sanity_one(&mut rng, &mut c, t);
     }
     println!(
-        "{{\"sanity\": true, \"scenarios\": {}, \"evaluations\": {}, \"internal_errors\": {}, \"panics\": {}, \"stalls\": {}, \"ephemeral_upstream_not_executed\": {}, \"first\": {:?}}}",
-        n, c.evaluations, c.internal_errors, c.panics, c.stalls, c.eph_upstream_not_executed, c.first
+        "{{\"sanity\": true, \"scenarios\": {}, \"evaluations\": {}, \"internal_errors\": {}, \"panics\": {}, \"stalls\": {}, \"ephemeral_upstream_not_executed\": {}, \"c07_not_reported_upstream_failed\": {}, \"c07_upstream_failed_without_cause\": {}, \"first\": {:?}}}",
+        n, c.evaluations, c.internal_errors, c.panics, c.stalls, c.eph_upstream_not_executed, c.c07_isolation, c.c07_cause, c.first
     );
 }
 
